@@ -67,3 +67,87 @@ def integral(x):
     if isinstance(x, float) and x == x and x not in (float("inf"), float("-inf")) and x == int(x):
         return int(x)
     return None
+
+
+# ---------------------------------------------------------------------------
+# collecting R_prop failures so that they can be shrunk before they are reported
+# ---------------------------------------------------------------------------
+
+class Collector:
+    """ctx look-alike handed to the judges: failed clauses are collected; counters, cases and R_trace divergences
+    go straight to the real context (or nowhere when `ctx` is None, which is how shrink candidates are evaluated)."""
+
+    def __init__(self, ctx):
+        self.ctx = ctx
+        self.fails = []
+
+    def fail(self, function, klass, what, rep):
+        self.fails.append((function, klass, what, rep))
+        return True
+
+    def count(self, key, n=1):
+        if self.ctx is not None:
+            self.ctx.count(key, n)
+
+    def case(self, *a, **kw):
+        if self.ctx is not None:
+            self.ctx.case(*a, **kw)
+
+    def tdiv(self, *a, **kw):
+        if self.ctx is not None:
+            self.ctx.tdiv(*a, **kw)
+
+
+def shrink(case, key, candidates, evaluate, deadline):
+    """Greedy structural shrinking: every single-step reduction of the current case is evaluated in one batch and
+    the first one on which the same (function, class) still fails is kept; candidates the harness itself objects
+    to (Infra: e.g. a cost change that creates a negative cycle) are skipped."""
+    import time
+    from core import Infra
+    history = []
+    while time.time() < deadline:
+        cands = list(candidates(case))
+        if not cands:
+            break
+        try:
+            res = evaluate([c for _, c in cands])
+        except Infra:
+            res = []
+            for _, c in cands:
+                try:
+                    res.append(evaluate([c])[0])
+                except Infra:
+                    res.append([])
+        for (how, c), fails in zip(cands, res):
+            if any((f[0], f[1]) == key for f in fails):
+                case = c
+                history.append(how)
+                break
+        else:
+            break
+    return case, history
+
+
+def report(ctx, cases, results, shrink_one, max_shrinks=3):
+    """ctx.fail for every collected failure; the first few failures that are not known findings are shrunk first
+    (the replay then holds the small case, the original one and the shrink history)."""
+    shrunk = 0
+    for case, fails in zip(cases, results):
+        if not fails:
+            continue
+        out, seen = [], set()
+        unknown = [f for f in fails if ctx.known_match(f[0], f[1]) is None]
+        if shrink_one is not None and unknown and shrunk < max_shrinks and len(ctx.violations) < 5:
+            shrunk += 1
+            small_fails, history, original = shrink_one(case, unknown[0])
+            if history:
+                for fn, klass, what, rep in small_fails:
+                    if (fn, klass) not in seen:
+                        seen.add((fn, klass))
+                        out.append((fn, klass, what, dict(rep, original_case=original, shrink_history=history)))
+        for fn, klass, what, rep in fails:   # clauses that fail on the original case only
+            if (fn, klass) not in seen:
+                seen.add((fn, klass))
+                out.append((fn, klass, what, rep))
+        for fn, klass, what, rep in out:
+            ctx.fail(fn, klass, what, rep)
